@@ -70,7 +70,10 @@ def r8(ctx, cfg):
             conds = q.conditions_at(P, F, g, b)
             spared = any(c[0] == "bool" and c[1][0] == "is_zero" and c[1][2] is True and
                          contains(c[1][1][0], lambda x: x[0] == "field" and x[2] == "rewards") for e, c in conds)
-            ctx.ob(R, key, "accrued-rewards-survive:remove#%d" % n, spared,
+            # (the instance is named after the branch it sits in, not after its position: a site added elsewhere keeps this key)
+            wipe = any(c[0] == "bool" and c[1][0] == "is_zero" and c[1][2] is True and contains(c[1][1][0], lambda x: x[0] == "field" and x[2] == "stake")
+                       for e, c in conds)
+            ctx.ob(R, key, "accrued-rewards-survive:%s" % ("all-gone-branch" if wipe else "remove#%d" % n), spared,
                    "slash removes a delegator's STAKES entry (line %d) together with the rewards accrued on it: after delegating 100 for a year (9 accrued) "
                    "a slash by 100 %% - or any slash that leaves less than one token of total stake - makes the 9 vanish, WithdrawDelegatorReward fails" % t["line"],
                    fn=g, line=t["line"], sample="removed only when rewards.is_zero()")
